@@ -32,7 +32,7 @@ LEVEL_NOTE = ("Trusts the 15-line definitional oracle (models/search.py) and CPy
               "inputs restricted to the property's quantifier (strictly increasing array, non-empty sorted queries). "
               "'closest' is additionally judged by exact rational distances; disagreements that are pure float rounding "
               "of the two distances are the known finding K2 (KNOWN-FINDING line, exit 0).")
-TECHNIQUE = "runtime post-condition monitor on the real functions vs definitional oracle; exhaustive small scope + random"
+TECHNIQUE = "runtime post-condition monitor on the real functions vs definitional oracle; exhaustive small scope + random; thread-isolation monitor (concurrent vs sequential answers, first-use rounds with sys.monitoring yield injection)"
 REQUIRED_MONITORS = ["threads:search", "threads:first_use:search", "threads:first_use_yields_injected", "c10:asked_twice", "search_post:lower", "search_post:higher", "search_post:closest"]
 ASSUMPTIONS = ["queries non-empty and non-decreasing, array strictly increasing (the property's quantifier)",
                "empty query lists are outside the statement ('each query') and are not exercised"]
